@@ -40,12 +40,14 @@ TRUSTED_EXTRA = [
 
 ROWCOUNTS_QUICK = [1, 2, 9, 10, 11, 99, 100, 101, 250]
 ROWCOUNTS_THOROUGH = [999, 1000, 1001]
+ROWCOUNTS_BIG = [9999, 10000, 10001]
 DTYPES = ['int8', 'int16', 'int32', 'int64', 'uint8', 'uint16', 'uint32', 'uint64',
           'float16', 'float32', 'float64']
 INNERS = [[], [3], [2, 3]]
 COMPS = [0, 1, 9]
 TAGS = ['arr', 'arr', 'x', 'Traj_7']
 N_ATOMS = 6
+MODEL_MAX_CELLS = 6000
 
 ERRMAP = {
     'ValueError': 'value-error',
@@ -95,11 +97,21 @@ def _same_bytes(a, b):
     return a.shape == b.shape and a.dtype == b.dtype and a.tobytes() == b.tobytes()
 
 
-def _values(vseed, dtype, shape):
+def _values(vseed, dtype, shape, values='random'):
     """deterministic values with awkward bit patterns"""
     rng = np.random.default_rng(vseed)
     dt = np.dtype(dtype)
     n = int(np.prod(shape)) if len(shape) else 1
+    if values == 'zeros':
+        return np.zeros(shape, dtype=dt)
+    if values == 'const':
+        return np.full(shape, 1, dtype=dt) if dt.kind == 'b' else np.full(shape, 7, dtype=dt)
+    if dt.kind == 'b':
+        return rng.integers(0, 2, size=n).astype(bool).reshape(shape)
+    if dt.kind == 'c':
+        half = np.dtype('float%d' % (dt.itemsize * 4))
+        v = (rng.normal(size=n).astype(half) + 1j * rng.normal(size=n).astype(half)).astype(dt)
+        return v.reshape(shape)
     if dt.kind in 'iu':
         info = np.iinfo(dt)
         v = rng.integers(info.min, info.max, size=n, endpoint=True, dtype=dt)
@@ -191,10 +203,21 @@ def _build_input(case):
     inner = tuple(case['inner'])
     lens = case['lens']
     total = sum(lens)
-    flat = _values(case['vseed'], case['dtype'], (total,) + inner)
+    flat = _values(case['vseed'], case['dtype'], (total,) + inner, case.get('values', 'random'))
+    layout = case.get('layout', 'C')
+    given = flat
+    if layout == 'F' and flat.ndim >= 2:
+        given = np.asfortranarray(flat)
+    elif layout in ('strided', 'F'):
+        big = np.zeros((2 * total,) + inner, dtype=flat.dtype)
+        big[::2] = flat
+        given = big[::2]                                   # every other entry of a larger buffer
+    elif layout == 'reversed':
+        given = flat[::-1].copy()[::-1]                    # negative stride along the first axis
+    assert _same_bytes(np.ascontiguousarray(given), flat)
     if case['form'] == 'ndarray':
-        return flat, [flat]
-    a = ra.RaggedArray(array=flat, lengths=lens)
+        return given, [flat]
+    a = ra.RaggedArray(array=given, lengths=lens)
     rows, start = [], 0
     for n in lens:
         rows.append(flat[start:start + n])
@@ -222,6 +245,28 @@ def _subsets(case, rng):
     return out
 
 
+KEYS_AS = ['list', 'tuple', 'ndarray']
+STRIDE_AS = ['int', 'np.int64', 'np.int32', 'np.uint8', 'int']
+
+
+def _keys_obj(keys, how):
+    if how == 'tuple':
+        return tuple(keys)
+    if how == 'ndarray':
+        return np.array(keys)
+    return list(keys)
+
+
+def _stride_obj(s, how):
+    if how == 'np.uint8' and s > 255:
+        how = 'np.int64'
+    return {'int': int, 'np.int64': np.int64, 'np.int32': np.int32, 'np.uint8': np.uint8}[how](s)
+
+
+def _data_bytes(obj):
+    return np.ascontiguousarray(obj._data if hasattr(obj, '_data') else obj).tobytes()
+
+
 def check_ra(ctx, case, tmp):
     """one save + a family of loads; returns nothing, reports through ctx"""
     import tables
@@ -232,9 +277,16 @@ def check_ra(ctx, case, tmp):
     tag = case['tag']
     fn = os.path.join(tmp, 'ra_%d.h5' % (case['vseed'] % 100000))
     strides = case.get('strides', [1, 2, 3, 4, 5])
-    tags = ['rows=%s' % (nrows if nrows in ROWCOUNTS_QUICK + ROWCOUNTS_THOROUGH else 'other'),
+    tags = ['rows=%s' % (nrows if nrows in ROWCOUNTS_QUICK + ROWCOUNTS_THOROUGH + ROWCOUNTS_BIG else 'other'),
             'dtype=' + case['dtype'], 'inner=%s' % (tuple(case['inner']),), 'comp=%d' % case['comp'],
-            'form=' + case['form']]
+            'form=' + case['form']] + (['family=' + case['family']] if 'family' in case else [])
+    if max(case['lens']) > 65535:
+        tags.append('row-longer-than-65535')
+    for opt in ('layout', 'values'):
+        if opt in case:
+            tags.append('%s=%s' % (opt, case[opt]))
+    positional = bool(case.get('positional'))
+    reuse = bool(case.get('reuse'))
     ctx.case(case, nontrivial=nrows >= 2, tags=tags)
     base = {'op': 'C15.saveload', 'tag': tag, 'kind': case['form'], 'dtype': case['dtype'], 'inner': case['inner']}
     if case['form'] == 'ragged':
@@ -242,11 +294,16 @@ def check_ra(ctx, case, tmp):
     else:
         base['data'] = _entries(rows[0])
     has_empty = any(len(r) == 0 for r in rows)
+    before = _data_bytes(inp)
     try:
         kw = {'compression_level': case['comp']}
         if tag != 'arr':
             kw['tag'] = tag
-        ra.save(fn, inp, **kw)
+        if positional:
+            ctx.tag('positional-call')
+            ra.save(fn, inp, case['comp'], tag)
+        else:
+            ra.save(fn, inp, **kw)
     except Exception as e:  # noqa
         m = ctx.driver([dict(base, keys=None, stride=1)])[0]
         if has_empty and isinstance(e, ValueError):
@@ -259,6 +316,22 @@ def check_ra(ctx, case, tmp):
         return
     if has_empty:
         ctx.skip('empty row stored by the real code (model still mirrors the PyTables refusal)')
+    if _data_bytes(inp) != before:
+        ctx.violation('ra.save modified the array it was given', case)
+        return
+    fn2 = None
+    if reuse:
+        # the same object saved a second time with another compression level
+        ctx.tag('reuse-save-twice')
+        fn2 = fn[:-3] + '_again.h5'
+        try:
+            ra.save(fn2, inp, compression_level=COMPS[(COMPS.index(case['comp']) + 1) % 3], tag=tag)
+        except Exception as e:  # noqa
+            ctx.violation('second ra.save of the same object raised %s' % type(e).__name__, dict(case, error=str(e)[:200]))
+            return
+        if _data_bytes(inp) != before:
+            ctx.violation('second ra.save modified the array it was given', case)
+            return
     # listing
     with tables.open_file(fn) as h:
         listed = [k.name for k in h.list_nodes('/')]
@@ -283,25 +356,46 @@ def check_ra(ctx, case, tmp):
         reqs.append(dict(base, keys=keys, stride=s))
     # key of row i as the file lists it (identical to exp_names unless reported above)
     real_keys = listed
-    model = ctx.driver(reqs) if not has_empty else [None] * len(reqs)
+    # the model's buffer is a chain of closures (quadratic in the number of cells): plans that fill more than
+    # MODEL_MAX_CELLS cells are decided by the numpy oracle alone
+    def cells(idx, s):   # noqa
+        sel = range(nrows) if idx is None else idx
+        return 0 if len(sel) == 1 else sum(-(-len(rows[i]) // s) for i in sel)
+    use_model = [not has_empty and cells(idx, s) <= MODEL_MAX_CELLS for _, idx, s in plans]
+    answers = iter(ctx.driver([rq for rq, u in zip(reqs, use_model) if u]))
+    model = [next(answers) if u else None for u in use_model]
+    if not all(use_model) and not has_empty:
+        ctx.tag('model-skipped-large', use_model.count(False))
     full_rows = None
-    for (what, idx, s), m, rq in zip(plans, model, reqs):
+    for j, ((what, idx, s), m, rq) in enumerate(zip(plans, model, reqs)):
         sel = list(range(nrows)) if idx is None else idx
+        keys_as, stride_as = KEYS_AS[j % 3], STRIDE_AS[j % 5]
+        src = fn2 if (fn2 is not None and j % 2 == 1) else fn       # alternate between the two saved copies
+        sobj = _stride_obj(s, stride_as)
         try:
             if idx is None:
-                got = ra.load(fn, stride=s) if s != 1 else ra.load(fn)
+                if positional:
+                    got = ra.load(src, ..., sobj)
+                elif j % 3 == 2:
+                    got = ra.load(src, keys=..., stride=sobj)
+                else:
+                    got = ra.load(src, stride=sobj) if s != 1 else ra.load(src)
             else:
-                got = ra.load(fn, keys=[real_keys[i] for i in idx], stride=s)
+                kobj = _keys_obj([real_keys[i] for i in idx], keys_as)
+                got = ra.load(src, kobj, sobj) if positional else ra.load(src, keys=kobj, stride=sobj)
+                ctx.tag('keys-as-' + keys_as)
         except Exception as e:  # noqa
-            ctx.violation('ra.load raised %s (%s, stride %d)' % (type(e).__name__, what, s),
-                          dict(case, load=what, idx=idx, stride=s, error=str(e)[:200]))
+            ctx.violation('ra.load raised %s (%s, stride %d as %s, keys as %s)' % (type(e).__name__, what, s, stride_as, keys_as),
+                          dict(case, load=what, idx=idx, stride=s, stride_as=stride_as, keys_as=keys_as,
+                               error=str(e)[:200]))
             return
         grows, glens, plain, gdtype, consistent = _rows_of(got)
         ctx.tag('load-%s' % what)
-        ctx.tag('stride=%d' % s)
+        ctx.tag('stride=%d' % s if s <= 7 else 'stride>7')
+        ctx.tag('stride-as-' + stride_as)
         ctx.tag('plain-result' if plain else 'ragged-result')
         ctx.evaluations += 1
-        rp = dict(case, load=what, idx=idx, stride=s)
+        rp = dict(case, load=what, idx=idx, stride=s, stride_as=stride_as, keys_as=keys_as)
         if not consistent:
             ctx.violation('loaded lengths do not add up to the loaded data', rp)
             return
@@ -319,6 +413,25 @@ def check_ra(ctx, case, tmp):
             if not _same_bytes(g, e):
                 ctx.violation('row %d differs bit-wise from the saved row (stride %d)' % (k, s), rp)
                 return
+        if reuse and j < 4:
+            # the result must own its data: usable and writable after the file is closed, and scribbling over it
+            # must not leak into the file or into a second load
+            ctx.tag('reuse-load-twice')
+            target = got._data if hasattr(got, '_data') else got
+            try:
+                target[...] = np.zeros((), dtype=target.dtype)
+            except Exception as e:  # noqa
+                ctx.skip('loaded array not writable (%s): overwrite test not applicable' % type(e).__name__)
+            try:
+                again = ra.load(src, **({} if idx is None else {'keys': [real_keys[i] for i in idx]}), stride=s)
+            except Exception as e:  # noqa
+                ctx.violation('second ra.load of the same file raised %s' % type(e).__name__, rp)
+                return
+            arows = _rows_of(again)[0]
+            if len(arows) != len(exp_rows) or any(not _same_bytes(a, e) for a, e in zip(arows, exp_rows)):
+                ctx.violation('second load of the same file differs after the first result was overwritten', rp)
+                return
+            grows = arows
         if idx is None and s == 1:
             full_rows = grows
         elif full_rows is not None:
@@ -341,10 +454,63 @@ def check_ra(ctx, case, tmp):
                 or r['lengths'] != glens or r['plain'] != plain or r['dtype'] != case['dtype']
                 or r['inner'] != case['inner']):
             ctx.disagreement('Model.Store save/load differs from ra.save/ra.load', dict(rp, model_lengths=r['lengths'][:10]))
-    try:
-        os.unlink(fn)
-    except OSError:
-        pass
+    for f in (fn, fn2):
+        try:
+            if f:
+                os.unlink(f)
+        except OSError:
+            pass
+
+
+def gen_blindspot_ra_cases(ctx):
+    """families added by the generator blind-spot audit (sizes, containers, layouts, reuse, residues)"""
+    rng = ctx.rng
+    vs = lambda: int(rng.integers(1, 2**31))   # noqa
+    cases = []
+    def add(family, **kw):   # noqa
+        c = {'kind': 'ra', 'form': 'ragged', 'inner': [], 'dtype': 'int32', 'comp': 1, 'tag': 'arr',
+             'vseed': vs(), 'family': family}
+        c.update(kw)
+        cases.append(c)
+    # 1. size boundaries: very long rows (> 255, > 65535 entries), 1000 / 10000 rows
+    add('long-row', lens=[70000], dtype='int16', strides=[1, 3, 7])
+    add('long-row', lens=[1, 66000, 2], dtype='uint8', strides=[1, 5], comp=9)
+    add('long-row', lens=[3, 40000], dtype='float32', inner=[3], strides=[1, 4], comp=0)
+    add('long-row', lens=[300, 257, 256, 255], dtype='int8', strides=[1, 2, 255, 256, 257])
+    if ctx.thorough:
+        add('long-row', lens=[200000, 1], dtype='float64', strides=[1, 9])
+        add('long-row', form='ndarray', lens=[131073], dtype='uint16', inner=[2], strides=[1, 2, 65536])
+    for n in ([1000] if not ctx.thorough else [9999, 10000, 10001]):
+        add('rows-10^k', lens=[int(x) for x in rng.integers(1, 4, size=n)], dtype='int64', strides=[1, 3],
+            comp=0 if n > 1000 else 1)
+    # 6. every residue of length modulo stride, strides up to 7 (and longer than some rows)
+    add('all-residues', lens=list(range(1, 15)), strides=[3, 4, 5, 6, 7])
+    add('all-residues', lens=list(range(14, 0, -1)), inner=[3], dtype='float64', strides=[3, 5, 7, 20])
+    add('all-residues', form='ndarray', lens=[13], inner=[2, 3], dtype='float32', strides=[3, 4, 5, 6, 7, 13, 14])
+    # 2. other storable element types, non-contiguous inputs
+    for dt in ('bool', 'complex64', 'complex128'):
+        add('dtype-extra', lens=[int(x) for x in rng.integers(1, 9, size=6)], dtype=dt, inner=INNERS[vs() % 3])
+        add('dtype-extra', form='ndarray', lens=[7], dtype=dt, inner=[3])
+    for layout in ('F', 'strided', 'reversed'):
+        add('layout', form='ndarray', lens=[int(rng.integers(2, 20))], inner=[2, 3], dtype='float64', layout=layout)
+        add('layout', form='ndarray', lens=[int(rng.integers(2, 20))], inner=[], dtype='int16', layout=layout)
+        add('layout', lens=[int(x) for x in rng.integers(1, 9, size=12)], inner=[3], dtype='float32', layout=layout)
+    # 4. degenerate values (all-zero chunks, constant data)
+    for values in ('zeros', 'const'):
+        add('degenerate-values', lens=[int(x) for x in rng.integers(1, 9, size=11)], dtype='float64', values=values,
+            comp=9)
+        add('degenerate-values', form='ndarray', lens=[40], inner=[3], dtype='int32', values=values)
+    # 5. object reuse / call history; positional arguments
+    for j in range(ctx.n(6, 40)):
+        add('reuse', lens=[int(x) for x in rng.integers(1, 9, size=int(rng.integers(1, 13)))],
+            dtype=str(rng.choice(DTYPES)), inner=INNERS[j % 3], comp=COMPS[j % 3], reuse=True,
+            form='ndarray' if j % 5 == 4 else 'ragged')
+        if cases[-1]['form'] == 'ndarray':
+            cases[-1]['lens'] = cases[-1]['lens'][:1]
+    for j in range(ctx.n(4, 20)):
+        add('positional', lens=[int(x) for x in rng.integers(1, 9, size=int(rng.integers(1, 13)))],
+            dtype=str(rng.choice(DTYPES)), inner=INNERS[j % 3], comp=COMPS[j % 3], tag=TAGS[j % 4], positional=True)
+    return cases
 
 
 def gen_ra_cases(ctx):
@@ -373,6 +539,7 @@ def gen_ra_cases(ctx):
         cases.append({'kind': 'ra', 'form': 'ndarray', 'lens': [int(rng.integers(1, 30))],
                       'inner': INNERS[int(rng.integers(0, 3))], 'dtype': str(rng.choice(DTYPES)),
                       'comp': int(rng.choice(COMPS)), 'tag': 'arr', 'vseed': int(rng.integers(1, 2**31))})
+    cases += gen_blindspot_ra_cases(ctx)
     # known-finding probe: a row of length zero
     cases.append({'kind': 'ra', 'form': 'ragged', 'lens': [2, 0, 3], 'inner': [], 'dtype': 'int64', 'comp': 1,
                   'tag': 'arr', 'vseed': 77, 'strides': [1, 2]})
@@ -501,6 +668,8 @@ class TrajPool:
         if key not in self.made:
             rng = np.random.default_rng([self.pseed, idx, length])
             xyz = rng.normal(scale=2.0, size=(length, N_ATOMS, 3)).astype(np.float32)
+            if idx >= 1000:
+                xyz[:] = 0.0                               # degenerate: an all-zero trajectory
             fn = os.path.join(self.tmp, 'p%d_t%03d_%d.%s' % (self.pseed % 1000, idx, length, fmt))
             md.Trajectory(xyz, self.top).save(fn)
             self.made[key] = fn
@@ -547,10 +716,10 @@ def check_concat(ctx, case, tmp, pools):
         if f['fmt'] == 'xtc':
             kw['top'] = top
         a = case['per_file'][i] if case['mode'] == 'args' else case['common']
-        if a.get('stride', 1) != 1:
-            kw['stride'] = a['stride']
+        if a.get('stride', 1) != 1 or a.get('stride_explicit'):
+            kw['stride'] = _stride_obj(a.get('stride', 1), case.get('stride_as', 'int'))
         if a.get('atoms') is not None:
-            kw['atom_indices'] = np.array(a['atoms'])
+            kw['atom_indices'] = {'ndarray': np.array, 'list': list, 'tuple': tuple}[case.get('atoms_as', 'ndarray')](a['atoms'])
         if a.get('frame') is not None:
             kw['frame'] = a['frame']
         return kw
@@ -566,7 +735,7 @@ def check_concat(ctx, case, tmp, pools):
             nframes.append(len(fh))
     specs = []
     for i in range(k):
-        st = kws[i].get('stride', 1)
+        st = int(kws[i].get('stride', 1))
         hf = 'frame' in kws[i]
         if len(indiv[i]) != (1 if hf else math.ceil(nframes[i] / st)):
             ctx.disagreement('mdtraj stride contract does not hold', dict(case, file=i))
@@ -587,6 +756,9 @@ def check_concat(ctx, case, tmp, pools):
     elif case['hint'] == 'total-big':
         hint = list(exp_lengths)
         hint[case['hint_pos'] % k] += 2
+    if hint is not None:
+        hint = {'list': list, 'tuple': tuple, 'ndarray': np.array}[case.get('hint_as', 'list')](hint)
+    hint_snapshot = None if hint is None else [int(x) for x in hint]
     delays = {os.path.basename(f): d for f, d in zip(files, case['delays'])}
     logfile = os.path.join(tmp, 'done_%d.log' % case['cid'])
     call = {'processes': case['processes']}
@@ -596,20 +768,45 @@ def check_concat(ctx, case, tmp, pools):
         call['args'] = kws
     else:
         call.update(kws[0])          # common kwargs (identical for every file by construction)
-    ctx.case(case, nontrivial=k >= 2,
-             tags=['files=%d' % k, 'processes=%d' % case['processes'], 'mode=' + case['mode'], 'hint=' + case['hint'],
-                   'delay=' + case['delay']] + sorted({'fmt=' + f['fmt'] for f in case['files']}))
-    orig_md = L.md
-    L.md = MdProxy(orig_md, delays, logfile, os.getpid())
-    try:
+    procs = case['processes']
+    files_as = case.get('files_as', 'iter' if case['cid'] % 7 == 3 else 'list')
+    tags = ['files=%s' % (k if k <= 16 else '>16'), 'processes=%s' % procs, 'mode=' + case['mode'],
+            'hint=' + case['hint'], 'delay=' + case['delay'], 'files-as-' + files_as]
+    tags += sorted({'fmt=' + f['fmt'] for f in case['files']})
+    if procs is not None:
+        tags.append('files>processes' if k > procs else ('processes>files' if procs > k else 'files=processes'))
+    for opt in ('family', 'hint_as', 'atoms_as', 'stride_as'):
+        if opt in case:
+            tags.append('%s=%s' % (opt.replace('_as', '-as'), case[opt]))
+    if 'frame' in kws[0] and k >= 2:
+        tags.append('first-file-has-frame')
+    if len({tuple(sorted(kw)) for kw in kws}) >= 3:
+        tags.append('per-file-args-of-3+-kinds')
+    ctx.case(case, nontrivial=k >= 2, tags=tags)
+    files_obj = {'list': list, 'tuple': tuple, 'iter': iter, 'ndarray': np.array}[files_as](files)
+    args_snapshot = [sorted((kk, repr(v)) for kk, v in kw.items() if kk != 'top') for kw in kws]
+
+    def do_call(delayed):
+        orig_md = L.md
+        if delayed:
+            L.md = MdProxy(orig_md, delays, logfile, os.getpid())
         try:
-            # every 7th call hands the file names over as a one-shot iterator (the code must list() it)
-            res = L.load_as_concatenated(iter(files) if case['cid'] % 7 == 3 else files, **call)
-            real = ('ok', res)
-        except Exception as e:  # noqa
-            real = ('error', _err_kind(e))
-    finally:
-        L.md = orig_md
+            try:
+                if case.get('positional') and case['mode'] == 'args':
+                    return ('ok', L.load_as_concatenated(files_obj, hint, procs, kws))
+                return ('ok', L.load_as_concatenated(files_obj, **call))
+            except Exception as e:  # noqa
+                return ('error', _err_kind(e))
+        finally:
+            L.md = orig_md
+
+    real = do_call(True)
+    if [sorted((kk, repr(v)) for kk, v in kw.items() if kk != 'top') for kw in kws] != args_snapshot:
+        ctx.violation('load_as_concatenated modified the per-file argument dictionaries it was given', case)
+        return
+    if hint is not None and [int(x) for x in hint] != hint_snapshot:
+        ctx.violation('load_as_concatenated modified the lengths hint it was given', case)
+        return
     order = []
     if os.path.exists(logfile):
         with open(logfile) as fh:
@@ -624,11 +821,15 @@ def check_concat(ctx, case, tmp, pools):
         ctx.tag('late-file-finished-first')
     else:
         ctx.tag('completed-in-file-order')
-    reqs = [{'op': 'C15.concat', 'specs': specs, 'hint': hint, 'order': o}
+    reqs = [{'op': 'C15.concat', 'specs': specs, 'hint': hint_snapshot, 'order': o}
             for o in (order, order[::-1], list(range(k)))]
     model = ctx.driver(reqs)
     wrong = case['hint'] in ('short-list', 'total-small', 'total-big')
     if real[0] == 'error':
+        if not wrong and real[1] == 'TypeError' and case.get('hint_as') == 'ndarray':
+            ctx.violation('load_as_concatenated raises TypeError when the (correct) lengths hint holds numpy integers',
+                          case, key='concat-hint-numpy-ints')
+            return
         if not wrong:
             ctx.violation('load_as_concatenated raised %s on valid input' % real[1], case)
             return
@@ -654,6 +855,17 @@ def check_concat(ctx, case, tmp, pools):
             where = 'frames %s' % badf[:6].tolist()
         ctx.violation('parallel load differs from the concatenation in file order (%s)' % where, case)
         return
+    if case.get('twice') and files_as != 'iter':
+        # call history: a second call must give the same answer and must not disturb the first result
+        ctx.tag('reuse-call-twice')
+        again = do_call(False)
+        if again[0] != 'ok' or [int(x) for x in again[1][0]] != exp_lengths or not _same_bytes(np.asarray(again[1][1]), exp_xyz):
+            ctx.violation('second identical call of load_as_concatenated gives a different result', case)
+            return
+        again[1][1][...] = 0.0
+        if not _same_bytes(np.asarray(xyz), exp_xyz):
+            ctx.violation('result of the first call changed when the second result was overwritten (shared buffer)', case)
+            return
     got_ints = _frames_ints(np.asarray(xyz))
     for m in model:
         ok = m.get('ok')
@@ -722,6 +934,70 @@ def gen_concat_cases(ctx):
         cases.append({'kind': 'concat', 'cid': c, 'pseed': pseed, 'files': files, 'processes': procs, 'mode': mode,
                       'common': common, 'per_file': per_file, 'hint': hint, 'hint_pos': int(rng.integers(0, 64)),
                       'delay': delay, 'delays': delays})
+        if c % 4 == 1 and hint in ('none', 'correct'):
+            cases[-1]['twice'] = True
+    cases += gen_blindspot_concat_cases(ctx, pseed, ncases)
+    return cases
+
+
+def gen_blindspot_concat_cases(ctx, pseed, cid0):
+    """families added by the generator blind-spot audit"""
+    rng = ctx.rng
+    cases = []
+    allatoms = list(range(N_ATOMS))
+
+    def add(family, lens, fmts, procs, mode='args', per_file=None, common=None, hint='none', delay='reverse', **kw):
+        k = len(lens)
+        files = [{'idx': 500 + 20 * len(cases) + i, 'len': n, 'fmt': f} for i, (n, f) in enumerate(zip(lens, fmts))]
+        unit = 0.02 if k <= 6 else 0.006
+        delays = [round(unit * (k - 1 - i), 3) for i in range(k)] if delay == 'reverse' else [0.0] * k
+        c = {'kind': 'concat', 'cid': cid0 + len(cases), 'pseed': pseed, 'files': files, 'processes': procs,
+             'mode': mode, 'common': common or {}, 'per_file': per_file or [], 'hint': hint, 'hint_pos': 0,
+             'delay': delay, 'delays': delays, 'family': family}
+        c.update(kw)
+        cases.append(c)
+
+    hx = lambda k: ['h5' if i % 2 == 0 else 'xtc' for i in range(k)]   # noqa
+    # 6. every residue of n_frames modulo the stride (strides 3, 4, 5; files shorter than the stride), more files
+    #    than processes
+    for st in (3, 4, 5) if ctx.thorough else (3, 5):
+        add('all-residues', list(range(1, 14)), ['h5'] * 13, 3, mode='common', common={'stride': st})
+    add('all-residues', list(range(13, 0, -1)), hx(13), 4, per_file=[{'stride': 3 + (i % 3)} for i in range(13)])
+    # 6. per-file args of different kinds in one call; first file selected by frame
+    add('mixed-kinds', [5, 7, 9, 4, 6], hx(5), 3,
+        per_file=[{}, {'stride': 3}, {'frame': 2}, {'stride': 2, 'atoms': allatoms}, {'stride': 1, 'stride_explicit': True}])
+    add('mixed-kinds', [8, 3, 11], hx(3), 2,
+        per_file=[{'frame': 7, 'atoms': [0, 2, 4]}, {'stride': 4, 'atoms': [1, 2, 3]}, {'atoms': [3, 4, 5]}])
+    add('mixed-kinds', [6, 6], ['xtc', 'xtc'], 2, per_file=[{'frame': 0}, {'frame': 5}], twice=True)
+    # 1./6. processes > files, processes = None (cpu count), one file
+    add('processes>files', [4, 9], hx(2), 8, per_file=[{'stride': 2}, {'stride': 3}])
+    add('processes>files', [7], ['xtc'], 5, per_file=[{'stride': 3}])
+    add('processes>files', [3, 5, 2], ['h5'] * 3, None, mode='none')
+    # 2. containers / numeric types of every argument
+    for j, (hint_as, atoms_as, stride_as, files_as) in enumerate([
+            ('ndarray', 'list', 'np.int64', 'tuple'), ('tuple', 'tuple', 'np.int32', 'ndarray'),
+            ('ndarray', 'ndarray', 'int', 'list'), ('list', 'list', 'np.int64', 'iter')]):
+        add('containers', [5, 8, 3, 9], hx(4), 2 + j % 2, hint='correct', hint_as=hint_as, atoms_as=atoms_as,
+            stride_as=stride_as, files_as=files_as,
+            per_file=[{'stride': 2 + (i + j) % 3, 'atoms': [0, 1 + j % 2, 4]} for i in range(4)])
+    add('containers', [6, 4, 7], ['h5'] * 3, 2, mode='common', common={'stride': 3, 'atoms': [1, 3]},
+        hint='correct', hint_as='ndarray', atoms_as='tuple', stride_as='np.int64', files_as='ndarray')
+    # 5. call history and positional arguments
+    add('positional', [4, 6, 5], hx(3), 2, per_file=[{'stride': 2}, {}, {'stride': 3}], hint='correct', positional=True)
+    add('positional', [4, 6, 5], hx(3), 3, per_file=[{'stride': 2}, {}, {'stride': 3}], positional=True, twice=True)
+    # 4. degenerate: all-zero coordinates (idx >= 1000 is written with zeros)
+    add('zeros', [5, 3], ['h5', 'xtc'], 2, per_file=[{'stride': 2}, {}])
+    for f in cases[-1]['files']:
+        f['idx'] += 1000
+    # 1. many files on few processes and few files on many processes (thorough)
+    if ctx.thorough:
+        add('many-files', [int(x) for x in rng.integers(1, 9, size=40)], hx(40), 3,
+            per_file=[{'stride': int(x)} for x in rng.integers(1, 4, size=40)])
+        add('many-files', [int(x) for x in rng.integers(1, 9, size=64)], ['h5'] * 64, 7, mode='common',
+            common={'stride': 2}, delay='none')
+        add('processes>files', [9, 2, 6], hx(3), 16, per_file=[{'stride': 2}, {}, {'stride': 4}])
+        add('long-trajectory', [3000, 1, 257], ['h5', 'xtc', 'h5'], 3, per_file=[{'stride': 7}, {}, {'stride': 256}],
+            delay='none')
     return cases
 
 
@@ -801,14 +1077,15 @@ def replay(ctx, data):
     try:
         kind = data.get('kind')
         if kind == 'ra':
-            keep = ('kind', 'form', 'lens', 'inner', 'dtype', 'comp', 'tag', 'vseed', 'strides')
+            keep = ('kind', 'form', 'lens', 'inner', 'dtype', 'comp', 'tag', 'vseed', 'strides', 'family', 'layout',
+                    'values', 'positional', 'reuse')
             check_ra(ctx, {k: data[k] for k in keep if k in data}, tmp)
         elif kind == 'h5':
             check_h5(ctx, {k: data[k] for k in ('kind', 'nodes', 'keys', 'stride', 'expect', 'vseed')}, tmp)
         elif kind == 'concat':
             keep = ('kind', 'cid', 'pseed', 'files', 'processes', 'mode', 'common', 'per_file', 'hint', 'hint_pos',
-                    'delay', 'delays')
-            check_concat(ctx, {k: data[k] for k in keep}, tmp, {})
+                    'delay', 'delays', 'family', 'hint_as', 'atoms_as', 'stride_as', 'files_as', 'positional', 'twice')
+            check_concat(ctx, {k: data[k] for k in keep if k in data}, tmp, {})
         elif kind == 'submodel':
             rq = {k: v for k, v in data.items() if k not in ('kind', 'model', 'python')}
             r = ctx.driver([rq])[0]
